@@ -166,7 +166,7 @@ let rec gen (s : schema) : gval =
   | SBytes (_, _, mx) ->
       let mx = min (int_of_n mx) 70000 in
       let l = match below 12 with 0 -> 0 | 1 -> mx | 2 -> max 0 (mx - 1) | 3 -> min mx 64 | _ -> min mx (below 40) in
-      let l = if l > 5000 && below 4 <> 0 then below 40 else l in
+      let l = if l > 5000 && below 20 <> 0 then below 40 else l in
       VBytes (List.init l (fun _ -> n_of_int (rand_byte ())))
   | SRaw k -> VBytes (List.init (int_of_n k) (fun _ -> n_of_int (rand_byte ())))
   | SRefine (p, s') -> gen_refined p s'
